@@ -454,6 +454,21 @@ pub enum Verdict {
 }
 
 pub fn judge(s: &State) -> Verdict {
+    let v = judge_plain(s);
+    if let Verdict::Ok { .. } = v {
+        // once more with the item as a `macro_rules!` expansion would deliver it: invisible groups around simple type
+        // names and `by = ..` values (totality and well-formedness only; the verdict of the plain run is kept)
+        expand::set_fragments(true);
+        let f = judge_plain(s);
+        expand::set_fragments(false);
+        if let Verdict::Bad(sym, what) = f {
+            return Verdict::Bad(format!("{sym}-with-fragment-groups"), what);
+        }
+    }
+    v
+}
+
+fn judge_plain(s: &State) -> Verdict {
     let run = || match s.entry {
         Entry::Attr => expand::expand_attr(&s.attr, &s.item),
         Entry::Derive => expand::expand_derive(&s.item),
